@@ -24,6 +24,7 @@ type rcfg struct {
 	MaxTx     int     `json:"maxTx"`
 	BurnNums  []int64 `json:"burnNums"`
 	Exports   int     `json:"exports"` // export/import restarts allowed per history
+	Crashes   int     `json:"crashes"` // crashes (loss of everything uncommitted, reopen) allowed per history
 }
 
 type rec map[string]interface{}
@@ -89,6 +90,9 @@ func randomRun(cfgPath string, seed int64, nbeh int, outPath string) error {
 			if act.A == "Commit" {
 				committedTx = pendingTx
 			}
+			if act.A == "Crash" {
+				pendingTx = committedTx
+			}
 			i++
 			ln := line{B: b, I: i, Act: raw, Res: lineRes{Class: res.Class, Code: res.Code, Updates: res.Updates, UpdDup: res.UpdDup,
 				Halt: res.Halt, Hash: res.Hash, Events: res.Events, TmErr: res.TmErr}, Post: toPost(r.A.Project(), rc.FracDen)}
@@ -149,8 +153,16 @@ func randomRun(cfgPath string, seed int64, nbeh int, outPath string) error {
 				t["kind"] = "unjail"
 			default:
 				to := rng.Intn(n+2) + 1 // users, fee collector (n+1), pool (n+2)
-				if to == n+1 {
-					to = n + 2
+				if to == n+1 && (fee == 0 || rng.Intn(2) == 0) {
+					to = n + 2 // (without fees nothing creates the fee collector's module account before a transfer could)
+				}
+				switch rng.Intn(12) {
+				case 0, 1:
+					to = n + 5 + rng.Intn(2) // an address outside the named ones (fresh or reused; n+6: of unusual length)
+				case 2:
+					if rng.Intn(3) == 0 {
+						to = n + 3 // the pos module account's address (not created before the first fee distribution)
+					}
 				}
 				t["to"] = to
 				x := amount(bal)
@@ -169,7 +181,7 @@ func randomRun(cfgPath string, seed int64, nbeh int, outPath string) error {
 		set := applyUpd(map[int]int64{}, res.Updates)
 		vs = [3]map[int]int64{{}, set, set}
 		halted := res.Class == "halt"
-		exports := 0
+		exports, crashes := 0, 0
 		for h := 1; h <= rc.MaxHeight && !halted; h++ {
 			st := r.A.Project()
 			votes := [][3]int64{}
@@ -231,7 +243,7 @@ func randomRun(cfgPath string, seed int64, nbeh int, outPath string) error {
 					do(tx("Tx"))
 					ntx++
 				case k < 63 && next < 3:
-					do(rec{"a": "ExtAward", "to": rng.Intn(n+4) + 1, "amt": rng.Int63n(c.MinStake*2) + 1})
+					do(rec{"a": "ExtAward", "to": rng.Intn(n+6) + 1, "amt": rng.Int63n(c.MinStake*2) + 1})
 					next++
 				case k < 68 && next < 3 && len(rc.BurnNums) > 0:
 					cur := r.A.Project()
@@ -254,6 +266,19 @@ func randomRun(cfgPath string, seed int64, nbeh int, outPath string) error {
 				}
 			}
 		end:
+			// now and then the node dies inside the block (before or after EndBlock): everything since the last
+			// Commit is lost, the next block starts from the committed state again
+			if rc.Crashes > 0 && crashes < rc.Crashes && r.CanCrash() && rng.Intn(8) == 0 {
+				if rng.Intn(2) == 0 {
+					if res = do(rec{"a": "EndBlock"}); res.Class == "halt" {
+						halted = true
+						break
+					}
+				}
+				do(rec{"a": "Crash"})
+				crashes++
+				continue
+			}
 			res = do(rec{"a": "EndBlock"})
 			if res.Class == "halt" {
 				halted = true
